@@ -28,6 +28,7 @@ type Account struct {
 	Kind     string `json:"kind"` // hotp | totp | ocra
 	Secret   []byte `json:"secret"`
 	Spelling int    `json:"spelling"`
+	VerSpell int    `json:"ver_spell,omitempty"` // 0: the verifier stores the token's spelling; k: spelling k-1 of the same secret
 	BadStore int    `json:"bad_store,omitempty"` // verifier's stored secret is damaged (misconfiguration)
 	Digits   int    `json:"digits"`
 	Algo     int    `json:"algo"`
@@ -377,6 +378,11 @@ func genAccount(t *rapid.T, prop string, kind string) Account {
 	a := Account{Kind: kind}
 	a.Secret = genSecret(t)
 	a.Spelling = rapid.IntRange(0, 5).Draw(t, "spelling")
+	if weighted(t, "verSpell?", 2, 1) == 1 {
+		// token and verifier hold the same secret in two of its documented spellings
+		// (padding or not, case, surrounding white space)
+		a.VerSpell = 1 + rapid.IntRange(0, 5).Draw(t, "verSpell")
+	}
 	a.Digits = genDigits(t)
 	a.Algo = rapid.IntRange(0, 2).Draw(t, "algo")
 	badW := 0
